@@ -6,8 +6,11 @@ import FxVerif.Proofs.C08Books
 import FxVerif.Proofs.C08Run
 import FxVerif.Proofs.C08Ext
 import FxVerif.Proofs.C08Fam
+import FxVerif.Proofs.C08Hist
 import FxVerif.Model.C08Cache
 import FxVerif.Proofs.C08Cache
+import FxVerif.Model.C08Journal
+import FxVerif.Proofs.C08Journal
 import FxVerif.Gen.C04
 import FxVerif.Gen.C08
 import FxVerif.Gen.C08b
@@ -544,6 +547,15 @@ theorem nested_conversion_paths_match_code :
     handlerERC20Token_usesKeeperLevelEVM = false := by
   decide
 
+open FxVerif.Gen.C08b in
+/-- **what `executeClaim` converts through** (the `e<n>` step of the mixed transactions is a keeper-level nested `mint`):
+`ExecuteClaim` hands a parked deposit to `SendToFxExecuted` / `BridgeCallHandler`; `SendToFxExecuted` with target `erc20`
+and `BridgeCallEvm` credit ERC-20 through `BaseCoinToEvm`, which is the erc20 keeper's `ConvertCoin` — read from the AST -/
+theorem executeClaim_conversion_path_matches_code :
+    executeClaim_dispatchesDeposits = true ∧ sendToFxExecuted_erc20Target_usesBaseCoinToEvm = true ∧
+    bridgeCallEvm_usesBaseCoinToEvm = true ∧ baseCoinToEvm_usesKeeperConvertCoin = true := by
+  decide
+
 /-! ### I_index, inductively (unified model: every message of the erc20 module, any order, any arguments) -/
 
 open FxVerif.Proofs.C08 in
@@ -813,6 +825,106 @@ theorem sum_preserved_unified (s s' : UState) (op : UOp) (h : stepU s op = .ok s
 
 end Exact
 
+/-! ### I_external, I_sum and the metadata part of I_index over WHOLE HISTORIES (round 3) -/
+
+section Histories
+open FxVerif.Proofs.C08
+
+/-- **the denominations of a registered token are pairwise different and its bank metadata exists, after every history
+from genesis** (induction over the op list): `base :: aliases` never has a duplicate — the fact every book over "base plus
+per-chain bridge denominations" rests on.  Hypotheses: fresh deployment addresses (`FreshRun`) and the stateless validation
+the router runs before the handler (`WellFormedRun`: a registration's alias list has no duplicates). -/
+theorem metadata_invariant_from_genesis (L : Ledger) (dead : List Nat) (ops : List UOp)
+    (hf : FreshRun ⟨genesisIdx, L, true, dead⟩ ops) (hw : WellFormedRun ops) :
+    MdInv (runU ⟨genesisIdx, L, true, dead⟩ ops).idx := by
+  suffices H : ∀ (s : UState), IdxInv s.idx → MdInv s.idx → FreshRun s ops → IdxInv (runU s ops).idx ∧ MdInv (runU s ops).idx from
+    (H _ index_invariant_genesis mdInv_genesis hf).2
+  clear hf
+  induction ops with
+  | nil => exact fun s hi hm _ => ⟨hi, hm⟩
+  | cons op ops ih =>
+    intro s hi hm hf'
+    simp only [runU, List.foldl_cons]
+    have hw' : WellFormedRun ops := fun o ho => hw o (by simp [ho])
+    cases h : stepU s op with
+    | error e =>
+      have hst : stepUT s op = s := by simp [stepUT, h]
+      rw [hst]; exact ih hw' s hi hm (by simpa [FreshRun, hst] using hf'.2)
+    | ok s' =>
+      have hst : stepUT s op = s' := by simp [stepUT, h]
+      rw [hst]
+      exact ih hw' s' (inv_stepU s s' hi op hf'.1 h) (mdInv_stepU s s' hi hm op (hw op (by simp)) h)
+        (by simpa [FreshRun, hst] using hf'.2)
+
+/-- **I_external along EVERY history, exactly** (induction over the op list; any messages of the module in any order, with
+any arguments and any outcomes; the alias set of the pair moving along the way): for a registered externally-owned pair,
+the ERC-20 amount escrowed by the module minus the coin supply summed over the base denomination and the aliases the
+metadata lists AT THE END equals the same difference over the aliases listed at the start plus `extDrift` — the sum, over
+the successful messages of the history, of `extDelta` (`MsgConvertDenom` between the token's own denominations: the known
+finding) and `aliasShift` (the current supply of an alias entering or leaving the sum). -/
+theorem external_books_all_histories (s : UState) (hi : IdxInv s.idx) (hm : MdInv s.idx) (hdead : s.dead = [])
+    (ops : List UOp) (hf : FreshRun s ops) (hw : WellFormedRun ops) (id : PairId) (p : Pair)
+    (hp : lookup id s.idx.pairs = some p) (hext : p.external = true) :
+    extBook (runU s ops) p = extBook s p + extDrift p s ops :=
+  extBook_runU s hi hm hdead ops hf hw id p hp hext
+
+/-- **I_external is an invariant of every history of conversions, registrations, toggles and parameter updates**: as long
+as no `MsgConvertDenom` and no `MsgUpdateDenomAlias` occurs, every registered externally-owned pair keeps "escrowed ERC-20 =
+coin supply over base + aliases" through any list of `MsgConvertCoin` / `MsgConvertERC20` (of this and of every other
+token, to any receiver, succeeding or failing), registrations of further tokens, toggles and `MsgUpdateParams`. -/
+theorem external_books_preserved_all_histories (s : UState) (hi : IdxInv s.idx) (hm : MdInv s.idx) (hdead : s.dead = [])
+    (ops : List UOp) (hf : FreshRun s ops) (hw : WellFormedRun ops) (id : PairId) (p : Pair)
+    (hp : lookup id s.idx.pairs = some p) (hext : p.external = true)
+    (hops : ∀ op ∈ ops, (∀ d u r n t, op ≠ .convertDenom d u r n t) ∧ (∀ d a, op ≠ .idx (.updateAlias d a))) :
+    extBook (runU s ops) p = extBook s p := by
+  rw [extBook_runU s hi hm hdead ops hf hw id p hp hext, extDrift_zero p s ops hops]; omega
+
+/-- the hypotheses are met by a history that registers an externally-owned token with an alias, converts in both
+directions, registers and converts another token and toggles — and its book is balanced at the end -/
+example :
+    let s0 : UState := ⟨genesisIdx, ⟨fun a x => if a = .erc 11 ∧ x = .user 1 then 50 else 0, fun a => if a = .erc 11 then 50 else 0,
+      fun _ => none⟩, true, []⟩
+    let ops : List UOp := [.idx (.registerERC20 2 11 [120]), .convertERC20 11 1 1 30, .idx (.registerCoin 3 12 [130, 131]),
+      .convertCoin 2 1 2 10, .idx (.toggle 3)]
+    FreshRun s0 ops ∧ WellFormedRun ops ∧
+    extBook (runU s0 ops) ⟨2, 11, true, true⟩ = 0 ∧ (runU s0 ops).L.bal (.erc 11) .erc20Mod = 20 := by
+  refine ⟨?_, ?_, ?_, ?_⟩
+  · refine ⟨trivial, trivial, ?_, trivial, trivial, trivial⟩
+    simp only [UOp.fresh, IOp.fresh]; decide
+  · intro op hop
+    simp only [List.mem_cons, List.not_mem_nil, or_false] at hop
+    rcases hop with rfl | rfl | rfl | rfl | rfl <;> simp [UOp.wellFormed]
+  · decide
+  · decide
+
+/-- **I_sum along EVERY history** (induction over the op list): "Σ balances = supply" of every coin denomination and every
+ERC-20 contract, over any finite universe of accounts that contains the erc20 module account, the WFX contract and the
+accounts the messages name, is kept by every list of messages — whatever succeeds or fails in between. -/
+theorem sum_preserved_all_histories (s : UState) (ops : List UOp) (univ : List Addr) (hn : univ.Nodup)
+    (hE : Addr.erc20Mod ∈ univ) (hW : Addr.wfx ∈ univ) (hu : ∀ op ∈ ops, UOp.addrsIn univ op)
+    (a : Asset) (hwf : s.L.WF univ a) : (runU s ops).L.WF univ a := by
+  induction ops generalizing s with
+  | nil => exact hwf
+  | cons op ops ih =>
+    simp only [runU, List.foldl_cons]
+    refine ih _ (fun o ho => hu o (by simp [ho])) ?_
+    simp only [stepUT]
+    cases h : stepU s op with
+    | error e => exact hwf
+    | ok s' =>
+      refine sum_preserved_unified s s' op h univ hn hE hW ?_ a hwf
+      have := hu op (by simp)
+      cases op <;> exact this
+
+/-- the universe hypothesis is satisfiable: three users, the module account, the WFX contract and the gov account -/
+example : ∀ op ∈ ([.convertCoin 1 0 6 3, .convertERC20 11 1 2 4, .convertDenom 110 2 0 1 none, .idx (.toggle 1)] : List UOp),
+    UOp.addrsIn [.user 0, .user 1, .user 2, .erc20Mod, .wfx, partyAddr 6] op := by
+  intro op hop
+  simp only [List.mem_cons, List.not_mem_nil, or_false] at hop
+  rcases hop with rfl | rfl | rfl | rfl <;> simp [UOp.addrsIn, partyAddr]
+
+end Histories
+
 /-! ### keeper-level token calls: the regenerated success predicate of the evm keeper's ERC-20 wrappers -/
 
 section Wrapper
@@ -961,5 +1073,72 @@ example : CoherentTx [.evm (balanceOf 1) 0, .nested (burn 0 50) 50 0] ⟨{ store
   rw [← coherentTxB_iff]; decide
 
 end Mixed
+
+/-! ### mixed transactions with sub-call frames whose failure the caller swallows (Model/C08Journal.lean, round 3) -/
+
+section Frames
+open FxVerif.Model.C08Cache FxVerif.Proofs.C08Cache
+
+/-- **a failed, swallowed sub-call frame is invisible**: for EVERY group of calls run as a frame from ANY StateDB state with
+consistent caches, if the frame fails before completing a keeper-level nested call, then after `RevertToSnapshot` the
+StateDB presents exactly the values it presented before the frame, would commit exactly the same storage, and its caches
+are consistent again — although the frame's dirty entries stay in `dirtyStorage` (holding their pre-write values) and
+everything it loaded stays in `originStorage`. -/
+theorem failed_frame_is_invisible (g : List MStep) (s : TxSt) (h : Cons s.o) (hn : noNestedSuccess g s = true)
+    (hf : (runTxF g s).2 = false) :
+    (s.o.revertTo (runTxF g s).1.o).view = s.o.view ∧ (s.o.revertTo (runTxF g s).1.o).commit = s.o.commit ∧
+    Cons (s.o.revertTo (runTxF g s).1.o) := by
+  obtain ⟨he, hc⟩ := runTxF_fail_ext g s.o s (ext_refl _) h hn hf
+  obtain ⟨v1, v2⟩ := revertTo_spec s.o _ h hc he
+  exact ⟨v1, by rw [commit_eq_view _ v2, commit_eq_view _ h, v1], v2⟩
+
+/-- **mixed_tx_coherent with frames**: for EVERY transaction made of contract programs, keeper-level nested calls and
+sub-call frames whose failure is swallowed, IF every step / frame is coherent where it runs (no nested call touches a slot
+the running StateDB has cached) and every frame that fails has completed no keeper-level call before failing, THEN the
+outcome, the final token storage and the final escrow are those of running the programs one after the other on one store
+with each failed frame skipped. -/
+theorem mixed_tx_frames_coherent (steps : List XStep) (st : Store) (esc : Nat)
+    (hc : CoherentX steps ⟨{ store := st }, esc⟩) : txResultX steps st esc = seqResultX steps st esc :=
+  txResultX_coherent steps st esc hc
+
+/-- I_sum under mixing with frames: FIP20 method calls, alone or grouped into swallowed frames, keep
+"Σ balances − totalSupply" when the transaction is coherent -/
+theorem mixed_tx_frames_preserve_sum_partial (hs : List Nat) (hn : hs.Nodup) (steps : List XStep)
+    (hm : ∀ x ∈ steps, ∀ s ∈ x.steps, ∃ m : Method, s.prog = m.prog ∧ ∀ a ∈ m.holders, a ∈ hs) (st : Store) (esc : Nat)
+    (hc : CoherentX steps ⟨{ store := st }, esc⟩) :
+    tokDiff hs (txResultX steps st esc).2.1 = tokDiff hs st := by
+  rw [txResultX_coherent steps st esc hc]
+  simp only [seqResultX]
+  cases hr : runSeqX steps (st, esc) with
+  | none => rfl
+  | some r => exact runSeqX_tokDiff hs hn steps hm st esc r.1 r.2 hr
+
+/-- the hypotheses are satisfiable by a transaction with a failing frame (a transfer of more than the balance), a direct
+transfer, a failing `bridgeCall` frame on another holder and a successful frame -/
+example : CoherentX [.attempt [.evm (transfer 0 1 200) 0], .plain (.evm (transfer 0 1 5) 0), .attempt [.nested (burn 3 999) 999 0],
+    .attempt [.evm (approve 0 3 7) 0, .evm (transferFrom 3 0 2 7) 0]] ⟨{ store := store0 50 0 0 100 0 }, 100⟩ := by
+  rw [← coherentXB_iff]; decide
+
+/-- witness 4 (a reverted frame caches what it read): the contract TRIES a transfer of 200 out of 50 and swallows the
+failure — the failed `transfer` has loaded the balance slot into `originStorage`, which no revert undoes; `bridgeCall` then
+converts 20 through a nested call, and a later transfer of 5 starts from the cached 50: 20 tokens too many -/
+theorem mixed_tx_failed_frame_stale_read_creates_tokens :
+    let r := txResultX [.attempt [.evm (transfer 0 1 200) 0], .plain (.nested (burn 0 20) 20 0), .plain (.evm (transfer 0 1 5) 0)]
+      (store0 50 0 0 100 0) 100
+    r.1 = true ∧ r.2.1 (.bal 0) = 45 ∧ r.2.1 (.bal 1) = 5 ∧ r.2.1 .supply = 80 ∧
+    tokDiff [0, 1, 2] r.2.1 = tokDiff [0, 1, 2] (store0 50 0 0 100 0) + 20 := by
+  decide
+
+/-- witness 5 (a reverted write stays in `dirtyStorage`): a frame transfers 10 and then fails (`bridgeCall` of 999); the
+revert puts the old balance back INTO THE DIRTY SET; `bridgeCall` then converts all 50 through a nested call; a transfer of
+5 starts from the dirty 50 and its write-back recreates 45 of the 50 burned tokens -/
+theorem mixed_tx_reverted_write_creates_tokens :
+    let r := txResultX [.attempt [.evm (transfer 0 1 10) 0, .nested (burn 0 999) 999 0], .plain (.nested (burn 0 50) 50 0),
+      .plain (.evm (transfer 0 1 5) 0)] (store0 50 0 0 100 0) 100
+    r.1 = true ∧ r.2.1 (.bal 0) = 45 ∧ r.2.1 (.bal 1) = 5 ∧ r.2.1 .supply = 50 ∧ r.2.2 = 50 ∧
+    tokDiff [0, 1, 2] r.2.1 = tokDiff [0, 1, 2] (store0 50 0 0 100 0) + 50 := by
+  decide
+
+end Frames
 
 end FxVerif.Props.C08
